@@ -6,6 +6,7 @@ mod c09;
 mod c10;
 mod c10_conn;
 mod c18;
+mod smoke;
 
 pub fn run(opts: &Opts) -> i32 {
     match opts.prop.as_str() {
@@ -14,6 +15,7 @@ pub fn run(opts: &Opts) -> i32 {
         "C09" => c09::run(opts),
         "C10" => c10::run(opts),
         "C18" => c18::run(opts),
+        "smoke" => smoke::run(opts),
         other => {
             println!("INCONCLUSIVE: no check registered for {other}");
             2
